@@ -390,10 +390,16 @@ func c12Pools(c *Ctx) {
 		m32    *ISet
 		wire64 []byte
 		m64    *ISet
+		bad32  [][]byte // proper prefixes of wire32: every decoder must return an error for them
+		bad64  [][]byte
 	}
 	jobs := make([]job, G)
 	for i := range jobs {
-		m, _ := genSet(r, GenOpts{MaxChunks: 4, HeavyP: 0.3})
+		o := GenOpts{MaxChunks: 4, HeavyP: 0.3}
+		if i%4 == 0 {
+			o = GenOpts{MaxChunks: 300, HeavyP: 0.02} // long decodes overlap more
+		}
+		m, _ := genSet(r, o)
 		b, es := buildForm(r, m, "opt")
 		if es != "" {
 			c.Fail("build", "%s", es)
@@ -410,7 +416,16 @@ func c12Pools(c *Ctx) {
 		}
 		w64, _ := b64.ToBytes()
 		jobs[i].wire64, jobs[i].m64 = w64, m64
+		for k := 0; k < 4; k++ {
+			if len(w) > 1 {
+				jobs[i].bad32 = append(jobs[i].bad32, append([]byte(nil), w[:r.Intn(len(w)-1)+1]...))
+			}
+			if len(w64) > 9 {
+				jobs[i].bad64 = append(jobs[i].bad64, append([]byte(nil), w64[:8+r.Intn(len(w64)-9)+1]...))
+			}
+		}
 	}
+	failed := int64(0)
 	c.Step("%d goroutines x %d iterations decoding their own streams through the shared reader pools", G, iters)
 	var wg sync.WaitGroup
 	var mu sync.Mutex
@@ -428,6 +443,40 @@ func c12Pools(c *Ctx) {
 			}()
 			j := jobs[g]
 			for it := 0; it < iters; it++ {
+				// error paths hand pooled adapters back too: decodes that fail (truncated streams, a reader that
+				// fails mid-stream) are interleaved with the valid ones, on every goroutine
+				if (it+g)%2 == 0 && len(j.bad32) > 0 {
+					bad := j.bad32[it%len(j.bad32)]
+					fb := roaring.New()
+					var ferr error
+					switch (it / 2) % 5 {
+					case 0:
+						_, ferr = fb.FromBuffer(bad)
+					case 1:
+						_, ferr = fb.ReadFrom(bytes.NewReader(bad))
+					case 2:
+						_, ferr = fb.FromUnsafeBytes(bad)
+					case 3:
+						ferr = fb.UnmarshalBinary(bad)
+					default:
+						_, ferr = fb.ReadFrom(&chunkedReaderNoRng{data: bad, step: 1 + it%5})
+					}
+					if ferr != nil {
+						atomic.AddInt64(&failed, 1)
+					}
+					if len(j.bad64) > 0 {
+						bad64 := j.bad64[it%len(j.bad64)]
+						fb64 := roaring64.New()
+						if it%4 == 0 {
+							_, ferr = fb64.FromUnsafeBytes(append([]byte(nil), bad64...))
+						} else {
+							_, ferr = fb64.ReadFrom(bytes.NewReader(bad64))
+						}
+						if ferr != nil {
+							atomic.AddInt64(&failed, 1)
+						}
+					}
+				}
 				b := roaring.New()
 				var err error
 				switch it % 3 {
@@ -456,6 +505,7 @@ func c12Pools(c *Ctx) {
 	}
 	wg.Wait()
 	c.Eval(int64(G * iters * 2))
+	c.CountN("pool_decodes_that_returned_an_error_interleaved", atomic.LoadInt64(&failed))
 	c.Distinct(c.CaseSeed)
 	for _, e := range errs {
 		c.Fail("pools/concurrent-decode", "%s", e)
